@@ -47,6 +47,7 @@ package types
 //@   ensures[C13] err == nil && len(b) == 0 ==> size == 0
 //@   noalloc[C17]
 //@   ensures[C13] err == nil && len(b) > 0 ==> obj(l.table.table) == obj(b) && lo(l.table.table) == tTab(mem(b), lo(b), hi(b)) && len(l.table.table) == tTS(mem(b), lo(b), hi(b)) && l.table.data == tDS(mem(b), lo(b), hi(b)) && (l.table.big <==> b[len(b)-1] == 71) && lo(l.bytes) == tDat(mem(b), lo(b), hi(b)) && (b[len(b)-1] == 70 || b[len(b)-1] == 71)
+//@   ensures[C01,C13] len(b) > 0 && (b[len(b)-1] == 70 || b[len(b)-1] == 71) && vs > 0 && tTS(mem(b), lo(b), hi(b)) % ite(b[len(b)-1] == 71, 4, 2) == 0 ==> err == nil
 
 //@ func OpenList
 //@   safety[C02]
@@ -57,6 +58,9 @@ package types
 //@   safety[C02]
 //@   ensures[C02] within(result0.bytes, b) && result0.table.data <= len(result0.bytes) && within(result0.table.table, result0.bytes)
 //@   noalloc[C17]
+//@   let vs = valueSize(mem(b), lo(b), hi(b))
+//@   ensures[C13] result1 == nil && len(b) > 0 ==> result0.bytes == b[len(b)-vs:] && obj(result0.table.table) == obj(b) && lo(result0.table.table) == tTab(mem(b), lo(b), hi(b)) && len(result0.table.table) == tTS(mem(b), lo(b), hi(b)) && result0.table.data == tDS(mem(b), lo(b), hi(b)) && (result0.table.big <==> b[len(b)-1] == 71) && (b[len(b)-1] == 70 || b[len(b)-1] == 71)
+//@   ensures[C01,C13] len(b) > 0 && (b[len(b)-1] == 70 || b[len(b)-1] == 71) && vs > 0 && tTS(mem(b), lo(b), hi(b)) % ite(b[len(b)-1] == 71, 4, 2) == 0 ==> result1 == nil
 
 //@ func ParseList
 //@   safety[C02]
